@@ -83,7 +83,7 @@ CATALOGUE = [
     ('configure', 5), ('configure_top', 2), ('reconfigure', 6), ('reify_edges', 4), ('dereify_edges', 4),
     ('reify_attributes', 4), ('indicate_branches', 3), ('canonicalize_roles', 2), ('queries', 4), ('or', 4), ('sub', 4),
     ('errors', 3), ('errors_union', 3), ('errors_islands', 2), ('role_algebra', 2), ('node_contexts', 3), ('appears_inverted', 3), ('alignments', 2),
-    ('tree_nodes_walk', 2), ('graph_eq', 1),
+    ('tree_nodes_walk', 2), ('graph_eq', 1), ('codec_api', 3), ('model_reify', 3), ('model_from_dict', 1),
     # derive, then mutate the derived object in place
     ('or_then_ior', 3), ('sub_then_isub', 3), ('copy_then_top', 2), ('configure_then_rearrange', 3),
     ('configure_then_reset_variables', 3), ('or_then_sort', 2), ('indicate_then_ior', 2),
@@ -337,6 +337,45 @@ def run_op(w, op, local):
         return [[nd[0] for nd in t.nodes()], [[list(p), b[0]] for p, b in t.walk()], repr(t), str(t)]
     if name == 'graph_eq':
         return [g == w.graphs[y], g == g, str(g)[:0]]
+    if name == 'codec_api':
+        # the same calls through a shared PENMANCodec object
+        tt = codec.parse(text)
+        gg = codec.decode(text)
+        return [tt, gg, codec.format(t, indent=indent, compact=compact), codec.encode(g, indent=indent, compact=compact),
+                codec.format_triples(g.triples, indent=bool(op['a'] % 2)), codec.parse_triples(w.triple_texts[x])
+                if '"' not in w.triple_texts[x] else None, list(codec.iterparse(text + ' ' + w.texts[y]))]
+    if name == 'model_reify':
+        # the model's reification interface called directly (not through a transformation)
+        from penman.exceptions import ModelError
+        out = []
+        vs = set(g.variables())
+        for tr in g.triples[:6]:
+            try:
+                out.append([list(map(list, model.reify(tr, vs))), sorted(map(str, vs))])
+            except ModelError as e:
+                out.append(digest.canon_exc(e))
+            try:
+                out.append(list(map(list, model.reify(tr))))
+            except ModelError as e:
+                out.append(digest.canon_exc(e))
+        inst = {tr[0]: tr for tr in g.instances()}
+        for v, itr in sorted(inst.items(), key=lambda kv: str(kv[0]))[:4]:
+            rel = [tr for tr in g.triples if tr[0] == v and tr[1] != ':instance']
+            out.append([model.is_concept_dereifiable(itr[2]), model.original_order(itr[1])])
+            if len(rel) >= 2:
+                for a_, b_ in ((rel[0], rel[1]), (rel[1], rel[0])):
+                    try:
+                        out.append(list(model.dereify(itr, a_, b_)))
+                    except ModelError as e:
+                        out.append(digest.canon_exc(e))
+        return out
+    if name == 'model_from_dict':
+        from penman.model import Model
+        sp = dict(gmodels.CUSTOM_SPECS[op['a'] % len(gmodels.CUSTOM_SPECS)])
+        if 'reifications' in sp:
+            sp['reifications'] = [tuple(r) for r in sp['reifications']]
+        m = Model.from_dict(sp)
+        return [m, penman.encode(penman.decode(text, model=m), model=m), m == Model.from_dict(sp)]
     # ---- derive, then mutate the derived object in place ----------------------------------------
     if name == 'or_then_ior':
         h = g | w.graphs[y]
